@@ -35,7 +35,7 @@ COMMON_KINDS = ("crash", "sanitizer", "tsan")
 
 
 # a scenario usually violates several clauses at once; report the one closest to the cause first
-PRIORITY = ["name-dup", "round-robin", "pool-size", "affinity", "down-without-up", "double-up", "double-down", "up-after-down",
+PRIORITY = ["peer-address", "name-dup", "round-robin", "pool-size", "affinity", "down-without-up", "double-up", "double-down", "up-after-down",
             "msg-before-up", "msg-after-down", "leak-after-down", "bad-log", "stream-", "write-complete-count", "fatal-log",
             "no-up", "never-served", "no-down", "leak", "fd-leak", "sanitizer", "tsan", "crash"]
 
